@@ -243,15 +243,12 @@ def c03_distance_post(ctx, f_orig, fname, cstyle=False, label="C03"):
         if (m is None and not pr) or kw.get("only_ub"):
             return
         r, c = len(s1), len(s2)
-        if pr and not valid_ub_domain(kw, r, c):
-            ctx.count("c03_skipped_ub_not_valid")
-            if m is None:
-                return
-            pr = False
+        outside = pr and not valid_ub_domain(kw, r, c)
+        if outside:
+            # penalty with unequal lengths, or max_step: the Euclidean "bound" is not the cost of an admissible path.
+            # Still judged (the property quantifies over these settings); see known finding KF-C03-1.
+            ctx.count("c03_pruning_with_penalty_or_max_step")
         kw0 = {k: v for k, v in kw.items() if k not in ("max_dist", "use_pruning", "only_ub")}
-        if not pr and kw.get("use_pruning"):
-            # pruning outside its valid domain: judge only the max_dist law on a call without pruning
-            return
         d0 = float(f_orig(s1, s2, **kw0))
         res = float(result)
         ctx.count("c03_relational_checks")
@@ -273,8 +270,16 @@ def c03_distance_post(ctx, f_orig, fname, cstyle=False, label="C03"):
         if pr and d0 != inf:
             ctx.count("c03_pruning_checks")
         if verdict:
+            extra = {}
+            if outside:
+                try:
+                    from dtaidistance import ed as _ed
+                    extra["euclidean_bound"] = float(_ed.distance(s1, s2, inner_dist=kw.get("inner_dist", "squared euclidean"),
+                                                                  use_ndim=bool(kw.get("use_ndim", False))))
+                except Exception:
+                    pass
             ctx.violation(verdict, prop=label, fn=fname, s1=l1, s2=l2, settings=dict(settings_key(kw)),
-                          with_bound=res, without=d0)
+                          with_bound=res, without=d0, pruning_bound_is_not_a_path_cost=bool(outside), **extra)
         elif len(ctx.samples) < 3 and d0 not in (0, inf):
             ctx.sample(dict(fn=fname, s1=l1, s2=l2, settings=dict(settings_key(kw)), with_bound=res, without=d0))
 
